@@ -605,7 +605,21 @@ pub fn scenario(rng: &mut Rng) -> String {
     let blk = *rng.pick(&["div", "p", "li", "blockquote", "address", "h1", "td", "button", "marquee", "object", "applet", "center", "dd"]);
     let k = rng.range(1, 10);
     let rep = |s: &str, n: usize| s.repeat(n);
-    match rng.below(56) {
+    match rng.below(61) {
+        // Noah's ark (4th identical formatting element drops the oldest from the list, which stays open) and what
+        // the matching end tags then see: adoption agency step 1 on an element that is no longer in the list
+        56 => format!("{}x{}y<p>z", rep(&format!("<{fmt}>"), k), rep(&format!("</{fmt}>"), k)),
+        57 => format!("<{fmt} a=1 b=2><{fmt} b=2 a=1><{fmt} a=1 b=2><{fmt} a=1 b='2'><{fmt} a=1 b=2 c><{fmt} a=1 b=2>x{}<{blk}>y{}", rep(&format!("</{fmt}>"), k % 4), rep(&format!("</{fmt}>"), k % 7)),
+        // adoption agency: inner-loop counter above 3 (nodes leave the list), outer loop limit of 8
+        58 => {
+            let mut s = format!("<{fmt}>");
+            for i in 0..k {
+                s.push_str(&format!("<{}>", FORMATTING[(i * 5 + k) % FORMATTING.len()]));
+            }
+            format!("{s}<{blk}>x</{fmt}>y</{fmt2}>z")
+        },
+        59 => format!("<{fmt}>{}x{}y", rep(&format!("<{blk}><{fmt2}>"), k + 2), rep(&format!("</{fmt}>"), k + 2)),
+        60 => format!("{}<{blk}>{}x</{fmt}></{fmt}>y</{blk}>z</{fmt}>", rep(&format!("<{fmt}>"), k % 5 + 1), rep(&format!("<{fmt}>"), k % 4)),
         54 => format!("<{blk}><form id=f></{blk}><template><script>1</script>x<p>y</template><script>2</script><input name=a><textarea>t</textarea><button>b</button><select></select>"),
         55 => format!("<div><form></div><table><template><tr><script>1</script><td>x</template><tr><td><input><script>2</script></td></tr></table><input><{fmt}><fieldset>"),
         49 => {
